@@ -1,6 +1,7 @@
 import Victron.Model.Proto
 import Victron.Proofs.Frame
 import Victron.Proofs.Scan
+import Victron.Proofs.Supply
 /-
   C01 — Receive integrity: only valid, matching Get responses are ever accepted.
   Model: `parseResponse`, `getStep` (vecommand.go), `Vd.*` (driver on the scripted port).
@@ -70,6 +71,66 @@ theorem get_sound (idles : List Bool) (σ σ' : Vd) (addr : Nat) (haddr : addr <
         rw [this] at hv
         exact ⟨σ, idle, _, body, sk, ck, hp, hn, hv⟩
       · simp at h
+
+/-- **…and that frame was received from the device.** The accepting attempt is preceded by attempts that all
+    retried, starting from the state the call was made in; the state `σa` in which the accepted frame was
+    pending is the state those attempts lead to (not just any state), what stays pending afterwards is what
+    followed the frame, and everything that was pending then — the frame included — is a subsequence, order
+    kept, of what was pending when the call was made followed by the replies the port delivers for the writes
+    since: bytes are only ever dropped (flush, failed read), never invented or reordered. -/
+theorem get_sound_received (idles : List Bool) (σ σ' : Vd) (addr : Nat) (haddr : addr < 65536) (v : Bytes)
+    (h : Vd.veCommandGetL idles σ addr = (σ', .ok v)) :
+    ∃ (pre : List Bool) (idle : Bool) (post : List Bool) (σa : Vd) (body skipped : Bytes) (ck : Nat),
+      idles = pre ++ idle :: post ∧ Vd.afterRetries pre σ addr = some σa ∧
+      (σa.afterSend idle 7 (paramFor 7 addr)).pending = skipped ++ 58 :: body ++ 10 :: σ'.pending ∧
+      10 ∉ body ∧ ValidBody 7 body ([addr % 256, addr / 256 % 256, 0] ++ v) ck ∧
+      (skipped ++ 58 :: body ++ 10 :: σ'.pending).Sublist (σ.pending ++ σ.port.future) := by
+  induction idles generalizing σ with
+  | nil => simp [Vd.veCommandGetL] at h
+  | cons idle idles ih =>
+    rw [Vd.veCommandGetL_cons] at h
+    cases ha : σ.attempt idle addr with
+    | mk σ1 o =>
+      rw [ha] at h
+      cases o with
+      | retry =>
+        simp only at h
+        obtain ⟨pre, i, post, σa, body, sk, ck, hi, hr, hp, hn, hv, hs⟩ := ih σ1 h
+        refine ⟨idle :: pre, i, post, σa, body, sk, ck, by simp [hi], ?_, hp, hn, hv, ?_⟩
+        · unfold Vd.afterRetries; rw [ha]; exact hr
+        · have := σ.attempt_supply idle addr
+          rw [ha] at this
+          exact hs.trans this
+      | done r =>
+        simp only at h
+        obtain ⟨rfl, rfl⟩ := Prod.mk.inj h
+        -- the attempt that decided: unfold it
+        have hv : ∃ raw, σ.veCommand idle 7 addr = (σ1, .ok raw) ∧ getStep addr raw = .value v := by
+          unfold Vd.attempt at ha
+          cases hc : σ.veCommand idle 7 addr with
+          | mk σc rc =>
+            rw [hc] at ha
+            cases rc with
+            | panic => simp at ha
+            | err e => simp at ha
+            | ok raw =>
+              simp only at ha
+              cases hg : getStep addr raw with
+              | retry => rw [hg] at ha; simp at ha
+              | fail e => rw [hg] at ha; simp at ha
+              | panic => rw [hg] at ha; simp at ha
+              | value w =>
+                rw [hg] at ha
+                simp only [Prod.mk.injEq, Outcome.done.injEq, R.ok.injEq] at ha
+                exact ⟨raw, by rw [ha.1], by rw [hg, ha.2]⟩
+        obtain ⟨raw, hc, hg⟩ := hv
+        obtain ⟨body, sk, ck, hp, hn, hvb⟩ := veCommand_sound σ σ1 idle 7 addr raw hc
+        have := getStep_value addr haddr raw hvb.isBytes.1 _ hg
+        rw [this] at hvb
+        have hp' : (σ.afterSend idle 7 (paramFor 7 addr)).pending = sk ++ 58 :: body ++ 10 :: σ1.pending := hp
+        refine ⟨[], idle, idles, σ, body, sk, ck, rfl, rfl, hp', hn, hvb, ?_⟩
+        rw [← hp']
+        exact σ.afterSend_supply idle 7 (paramFor 7 addr)
 
 theorem getRaw_sound (idles : List Bool) (σ σ' : Vd) (addr : Nat) (haddr : addr < 65536) (v : Bytes)
     (h : σ.veCommandGet idles addr = (σ', .ok v)) :
